@@ -177,32 +177,35 @@ def LinSeg.physLimit (s : LinSeg) : Option Limit → R (Option Limit)
       let p ← s.convI2P a
       pure (some { value := some p, itype := l.itype })
 
+/-- the coefficient part of `LinearSegment.from_compu_scale` (linearsegment.py:37-46):
+    `(offset, factor, denominator)` -/
+def linCoeffs (sc : Scale) : R (Rat × Rat × Rat) :=
+  match sc.coeffs with
+  | none => .error .odx                                -- odxrequire(scale.compu_rational_coeffs)
+  | some ([], _) => .error .foreign                    -- numerators[0]: IndexError
+  | some (o :: rest, dens) => .ok (o, (rest.head?).getD 0, (dens.head?).getD 1)
+
+/-- the COMPU-INVERSE-VALUE part of `from_compu_scale` (linearsegment.py:48-53) -/
+def linInverse (sc : Scale) : R Val :=
+  match sc.inv with
+  | none => .ok (.int 0)
+  | some x => match x.num? with | some _ => .ok x | none => .error .odx
+
 /-- `LinearSegment.from_compu_scale` followed by `__post_init__`/`__compute_physical_limits`.
     `[fix c07-linear-negative-denominator]`: the limits are swapped when the *slope*
     `factor/denominator` is negative (the unfixed code looks at `factor` alone). -/
-def mkLinSeg (ity pty : DType) (sc : Scale) : R LinSeg :=
-  match sc.coeffs with
-  | none => .error .odx                                -- odxrequire(scale.compu_rational_coeffs)
-  | some (nums, dens) =>
-    match nums with
-    | [] => .error .foreign                            -- numerators[0]: IndexError
-    | o :: rest =>
-      let f : Rat := match rest with | [] => 0 | f :: _ => f
-      let d : Rat := match dens with | [] => 1 | d :: _ => d
-      let invR : R Val := match sc.inv with
-        | none => .ok (.int 0)
-        | some x => match x.num? with | some _ => .ok x | none => .error .odx
-      do
-        let inv ← invR
-        let s0 : LinSeg := { offset := o, factor := f, denom := d, ilo := sc.lo, ihi := sc.hi, inv := inv, ity := ity, pty := pty }
-        if 0 ≤ f * d then
-          let lo ← s0.physLimit sc.lo
-          let hi ← s0.physLimit sc.hi
-          pure { s0 with plo := lo, phi := hi }
-        else
-          let lo ← s0.physLimit sc.hi
-          let hi ← s0.physLimit sc.lo
-          pure { s0 with plo := lo, phi := hi }
+def mkLinSeg (ity pty : DType) (sc : Scale) : R LinSeg := do
+  let c ← linCoeffs sc
+  let inv ← linInverse sc
+  let s0 : LinSeg := { offset := c.1, factor := c.2.1, denom := c.2.2, ilo := sc.lo, ihi := sc.hi, inv := inv, ity := ity, pty := pty }
+  if 0 ≤ s0.factor * s0.denom then
+    let lo ← s0.physLimit sc.lo
+    let hi ← s0.physLimit sc.hi
+    pure { s0 with plo := lo, phi := hi }
+  else
+    let lo ← s0.physLimit sc.hi
+    let hi ← s0.physLimit sc.lo
+    pure { s0 with plo := lo, phi := hi }
 
 /-! ## SCALE-LINEAR -/
 
